@@ -826,8 +826,33 @@ class FnEffect:
             roots |= av.all()
         return AV(E0, {"*": frozenset(roots)})
 
+    def _partial_of(self, name: str):
+        """`g = partial(F, *a, **k)` bound exactly once in this function (and ``g`` not otherwise stored): the partial call node"""
+        if not hasattr(self, "_partials"):
+            self._partials = {}
+            stores = {}
+            for n in ast.walk(self.fn.node):
+                if isinstance(n, ast.Name) and isinstance(n.ctx, ast.Store):
+                    stores[n.id] = stores.get(n.id, 0) + 1
+            for n in ast.walk(self.fn.node):
+                if isinstance(n, ast.Assign) and len(n.targets) == 1 and isinstance(n.targets[0], ast.Name) and isinstance(n.value, ast.Call) and \
+                        stores.get(n.targets[0].id) == 1 and n.value.args and not any(isinstance(a, ast.Starred) for a in n.value.args) and \
+                        all(k.arg for k in n.value.keywords) and (
+                            (isinstance(n.value.func, ast.Name) and n.value.func.id == "partial") or
+                            (isinstance(n.value.func, ast.Attribute) and n.value.func.attr == "partial" and
+                             isinstance(n.value.func.value, ast.Name) and n.value.func.value.id == "functools")):
+                    self._partials[n.targets[0].id] = n.value
+        return self._partials.get(name)
+
     def call(self, e: ast.Call) -> AV:
         f = e.func
+        if isinstance(f, ast.Name) and self._partial_of(f.id) is not None:
+            # g(x, **m) with g = partial(F, *a, **k) is F(*a, x, **k, **m)
+            pc = self._partial_of(f.id)
+            given = {k.arg for k in e.keywords}
+            e2 = ast.Call(func=pc.args[0], args=list(pc.args[1:]) + list(e.args),
+                          keywords=[k for k in pc.keywords if k.arg not in given] + list(e.keywords))
+            return self.call(ast.copy_location(e2, e))
         pos: List[Tuple[AV, bool]] = []
         for a in e.args:
             if isinstance(a, ast.Starred):
